@@ -372,6 +372,12 @@ class Elab:
             gates += [g for g in par.gates if g not in gates]
             subs += par.subs
             conns += par.conns
+        seen = set()
+        for (name, k), _ in subs:                      # fix a6f4ffc: one name, one shape
+            key = (name, k is None)
+            if key in seen:
+                raise NdlErr(K_DUP_SYMBOL)
+            seen.add(key)
         for a, b, l in m["conns"]:
             lhs = expand_ep((), a, subs, gates)
             rhs = expand_ep((), b, subs, gates)
